@@ -12,6 +12,7 @@ from typing import List, Optional, Set
 
 from ..model import Program, AnalysisError, FuncInfo, walk_local, dotted
 from ..report import RuleResult
+from .usertruth import user_truth
 from ..astutil import src, site, calls_in, call_name, is_self_attr, is_super_call
 from ..callgraph import closure, resolve_call, Ctx
 from ..cfg import CFG
@@ -247,4 +248,5 @@ def run(prog: Program, tier: str) -> List[RuleResult]:
     from .c03 import domain_cache
 
     # the census reaches the variable through the caching iterator: an instance dropped from the cache is missing from the range
-    return [sg_register(prog), sg_enum(prog), sg_sweep(prog), sg_evaltime(prog), domain_cache(prog)]
+    return [sg_register(prog), sg_enum(prog), sg_sweep(prog), sg_evaltime(prog), domain_cache(prog),
+            user_truth(prog, ["entity_query_language.symbol_graph"], 3)]
